@@ -15,6 +15,8 @@ def spec(tier, seed):
              "run": lambda f, v, w: _mir.vc_applied_patches_recorded(f, v, w)},
             {"name": "rollback_and_save_rej_files: only the rejected patch is rolled back / rejected", "function": "rollback_and_save_rej_files", "target": "bin",
              "run": lambda f, v, w: _mir.vc_rej_only_failed(f, v, w)},
+            {"name": "rollback_and_save_rej_files: every dropped entry was rolled back first", "function": "rollback_and_save_rej_files", "target": "bin",
+             "run": lambda f, v, w: _mir.vc_rej_rollback_before_pop(f, v, w)},
             {"name": "apply_worker: stop test is strict", "function": "apply_worker", "target": "bin",
              "run": lambda f, v, w: _mir.vc_worker_stop_strict(f, v, w)},
         ],
